@@ -54,9 +54,14 @@ Definition build (cells faces edges : list (list nat)) : tabs :=
   {| t_ok := cell_adj_ok cells c2f; t_c2f := c2f; t_f2c := f2c; t_c2c := c2c_tab cells faces f2c;
      t_e2f := e2f; t_e2c := e2c_tab f2c e2f; t_bf := boundary_faces faces f2c |}.
 
-Definition ring_is (r : res (list nat * list nat)) (cs fs : list nat) : bool :=
-  match r with Ok (a, b) => leqb a cs && leqb b fs | _ => false end.
-Definition ring_exn (r : res (list nat * list nat)) : bool :=
+(* sorted: both lists exactly; left unsorted: the cells are a set (list(set(..))), the faces in face order *)
+Definition ring_is (r : res (bool * list nat * list nat)) (cs fs : list nat) : bool :=
+  match r with
+  | Ok (true, a, b) => leqb a cs && leqb b fs
+  | Ok (false, a, b) => seteq cs a && leqb b fs
+  | _ => false
+  end.
+Definition ring_exn (r : res (bool * list nat * list nat)) : bool :=
   match r with Exn => true | _ => false end.
 
 (* some edge on which every possible start cell makes the sort raise: then the whole _compute_edge_id raises *)
